@@ -847,7 +847,40 @@ def spec_loop_index(eng, args, kwargs, st):
     yield st.env['__idx%d' % int(args[0])], st
 
 
+def spec_sum(eng, args, kwargs, st):
+    from . import sums, npmodel
+    a = npmodel.arr_of(eng, st, args[0])
+    if a is not None and a.ndim == 1 and isinstance(a.shape[0], int):
+        yield npmodel.reduce_sum(eng, st, a), st
+    else:
+        yield sums.sum_of(eng, st, a), st
+
+
+def _sum_fact(name):
+    def f(eng, args, kwargs, st):
+        from . import sums
+        saved = eng.spec_mode
+        eng.spec_mode = True
+        try:
+            prem, concl = sums.fact(name, eng, st, args)
+        finally:
+            eng.spec_mode = saved
+        label = kwargs.get('label', name)
+        if eng.lemma_mode:
+            eng.oblige('lemma', label + '-premise', st, prem)
+            st.assume(concl)
+        elif eng.clauses is not None:
+            eng.clauses.append({'kind': 'hint', 'premise': prem, 'conclusion': concl, 'label': label, 'line': getattr(eng.cur_stmt, 'lineno', None)})
+        else:
+            raise OutOfSubset('%s outside a contract / lemma' % name)
+        yield None, st
+    return f
+
+
 SPEC = {
+    'sum_of': spec_sum,
+    'sum_nonneg': _sum_fact('sum_nonneg'), 'sum_le': _sum_fact('sum_le'), 'sum_eq': _sum_fact('sum_eq'), 'sum_add': _sum_fact('sum_add'),
+    'sum_scale': _sum_fact('sum_scale'), 'sum_zero': _sum_fact('sum_zero'), 'sum_ge_term': _sum_fact('sum_ge_term'),
     'mm': spec_mm,
     'mm_bounds': _mm_axiom('bounds'),
     'mm_monotone': _mm_axiom('monotone'),
